@@ -173,7 +173,7 @@ fn run_drop_case(rep: &Report, ds: &Dataset, c: &DropCase) -> Option<DropObs> {
         }
         RunOutcome::Wall => {
             rep.case(fp, false);
-            rep.inconclusive(&format!("wall-clock guard fired for {grid}"));
+            wall_case(rep, &format!("wall-clock guard fired for {grid}"));
             None
         }
         RunOutcome::Done(Err(e)) => {
@@ -184,7 +184,7 @@ fn run_drop_case(rep: &Report, ds: &Dataset, c: &DropCase) -> Option<DropObs> {
         RunOutcome::Done(Ok(o)) => {
             if o.wall_hit || o.settle.wall_exceeded {
                 rep.case(fp, false);
-                rep.inconclusive(&format!("wall-clock bound exceeded in {grid} (k={:?})", c.k));
+                wall_case(rep, &format!("wall-clock bound exceeded in {grid} (k={:?})", c.k));
                 return Some(o);
             }
             let held = o.before.alive_tasks > o.baseline || o.before.live_streams > 0 || o.before.reserved > 0 || o.before.disk_used > 0;
@@ -486,7 +486,7 @@ fn run_cancel_case(rep: &Report, ds: &Dataset, s: &CancelShape, rt: RtKind, clai
         }
         RunOutcome::Wall => {
             rep.case(fp, false);
-            rep.inconclusive(&format!("wall guard in cancellation case {} on {}", s.name, rt.name()));
+            wall_case(rep, &format!("wall guard in cancellation case {} on {}", s.name, rt.name()));
         }
         RunOutcome::Done(Err(e)) => {
             rep.case(fp, false);
@@ -495,7 +495,7 @@ fn run_cancel_case(rep: &Report, ds: &Dataset, s: &CancelShape, rt: RtKind, clai
         RunOutcome::Done(Ok(o)) => {
             if o.wall_hit || o.settle.wall_exceeded {
                 rep.case(fp, false);
-                rep.inconclusive(&format!("wall-clock bound exceeded in cancellation case {} on {}", s.name, rt.name()));
+                wall_case(rep, &format!("wall-clock bound exceeded in cancellation case {} on {}", s.name, rt.name()));
                 return;
             }
             for op in &o.ops {
@@ -570,6 +570,13 @@ fn explain(ds: &Dataset, only: Option<&str>) {
         });
         println!("== cancel/{} ==\n{}\n{:?}\n", s.name, s.sql, r);
     }
+}
+
+/// A multi-thread case that hit its wall-clock guard decides nothing (machine load); it is a counted skip.
+/// Only when many cases do so is the whole run inconclusive.
+fn wall_case(rep: &Report, what: &str) {
+    rep.skip(&format!("wall-clock/{}", what.chars().take(70).collect::<String>()));
+    rep.count("wall_clock_cases", 1);
 }
 
 fn run(args: &Args) -> i32 {
@@ -688,6 +695,9 @@ fn run(args: &Args) -> i32 {
         rep.obligation("cancellation-shapes", fired >= 22, &format!("the timeout must take effect in >= 22 endless-source shapes (seen {fired})"));
     }
     rep.set_exhaustive(false);
+    if rep.get_count("wall_clock_cases") > 25 {
+        rep.inconclusive("more than 25 multi-thread cases hit their wall-clock guard (machine too loaded to decide them)");
+    }
     rep.finish()
 }
 
